@@ -333,14 +333,14 @@ class Obj:
             raw.__name__ = name
             recv = self.target if isinstance(self, _Bound) else self
             return _decorate(fn, raw, self.funcs)(recv if not isinstance(self, _Bound) else self, *args, **kwargs)
-        params = [a.arg for a in fn.args.args]
-        static = any(isinstance(d, ast.Name) and d.id == 'staticmethod' for d in fn.decorator_list)
+        params = [a.arg for a in getattr(fn.args, 'posonlyargs', [])] + [a.arg for a in fn.args.args]        # (def m(self, x, /, y): self may be positional-only too)
+        static = any(isinstance(d, ast.Name) and _deco_name(d) == 'staticmethod' for d in fn.decorator_list)
         env = _Scope(self.closure) if getattr(self, 'closure', None) is not None else {}
         if not static:
             if not params:
                 raise TypeError('%s() takes no positional argument (self)' % name)
             env[params[0]] = (self.target if isinstance(self, _Bound) else self)
-            if any(isinstance(d, ast.Name) and d.id == 'classmethod' for d in fn.decorator_list):
+            if any(isinstance(d, ast.Name) and _deco_name(d) == 'classmethod' for d in fn.decorator_list):
                 # a class method reached through an instance: its first parameter is the class, not the instance
                 cn = (getattr(self, 'owners', None) or {}).get(name) or getattr(self, 'clsname', None)
                 try:
@@ -349,7 +349,7 @@ class Obj:
                     pass
         if getattr(self, 'clsname', None):
             env['__cls__'] = _owner or (getattr(self, 'owners', None) or {}).get(name, self.clsname)
-        _bind_params(fn, params if static else params[1:], args, kwargs, env, self.funcs, name)
+        _bind_params(fn, params if static else params[1:], args, kwargs, env, self.funcs, name, full=True)
         body = fn.body
         if body and isinstance(body[0], ast.Expr) and isinstance(body[0].value, ast.Constant) and isinstance(body[0].value.value, str):
             body = body[1:]
@@ -411,15 +411,18 @@ def _result(fn, env, kind, val):
     return val if kind == 'return' else None
 
 
-def _bind_params(fn, params, args, kwargs, env, funcs, name):
+def _bind_params(fn, params, args, kwargs, env, funcs, name, full=False):
     """bind actuals to the formals `params` (self already removed) of the FunctionDef fn: defaults, *args, keyword-only, **kwargs"""
     allp = [a.arg for a in fn.args.args]
     posonly = [a.arg for a in getattr(fn.args, 'posonlyargs', [])]
     if posonly:
-        # def f(a, b, /, c): the callers pass the regular formals (minus self); the positional-only ones come first
-        dropped = len(allp) - len(params)
-        allp = posonly + allp
-        params = allp[dropped:]
+        # def f(a, b, /, c): the positional-only formals come first; callers pass either all positional formals (minus self) or, the
+        # older ones, the regular formals only (minus self)
+        full_ = posonly + allp
+        if not full:
+            dropped = len(allp) - len(params)
+            params = full_[dropped:]
+        allp = full_
         posonly = [p_ for p_ in posonly if p_ in params]
     defaults = fn.args.defaults
     # Python evaluates a default once, when the function is defined: the value (a list, a dict ...) is shared by all calls
@@ -505,8 +508,16 @@ _DUNDER = {ast.Lt: '__lt__', ast.LtE: '__le__', ast.Gt: '__gt__', ast.GtE: '__ge
            ast.Eq: '__eq__', ast.NotEq: '__ne__'}
 
 
+def _deco_name(d):
+    """the plain name a decorator expression ends with, private import aliases included (@_cached_property, @_abc.abstractmethod)"""
+    if isinstance(d, ast.Call):
+        d = d.func
+    nm = d.id if isinstance(d, ast.Name) else (d.attr if isinstance(d, ast.Attribute) else '')
+    return nm.lstrip('_') if nm.lstrip('_') in _PLAIN_DECORATORS else nm
+
+
 def _is_property(fn):
-    return any((isinstance(d, ast.Name) and d.id in ('property', 'cached_property')) or (isinstance(d, ast.Attribute) and d.attr in ('cached_property',))
+    return any(not isinstance(d, ast.Call) and _deco_name(d) in ('property', 'cached_property') and not (isinstance(d, ast.Attribute) and d.attr in ('setter', 'getter', 'deleter'))
                for d in getattr(fn, 'decorator_list', ()))
 
 
@@ -1550,7 +1561,7 @@ def ev(n, env, funcs=None):
                 return cv_
             if n.attr in v.methods:
                 if _is_property(v.methods[n.attr]):
-                    if any('cached_property' in ast.unparse(d_) for d_ in v.methods[n.attr].decorator_list):
+                    if any(_deco_name(d_) == 'cached_property' for d_ in v.methods[n.attr].decorator_list):
                         v.fields[n.attr] = v.call(n.attr)         # functools.cached_property: computed once, then an instance attribute
                         return v.fields[n.attr]
                     return v.call(n.attr)              # @property: reading the attribute runs the getter
@@ -1571,6 +1582,10 @@ def ev(n, env, funcs=None):
             am_ = _mangled(n.attr, env)             # self.__x inside a repository method interpreted on an abstract object
             if am_ != n.attr and hasattr(v, am_):
                 return getattr(v, am_)
+            rm_ = getattr(v, 'repo_methods', None)
+            if rm_ and n.attr in rm_ and not _is_property(rm_[n.attr]):
+                # a method of the repository class the model stands for, taken as a value (iter(F.pop_smallest, sentinel))
+                return (lambda v_, nm_: lambda *a_, **k_: Obj.call(_Bound(v_, v_.repo_methods, getattr(v_, 'repo_funcs', funcs)), nm_, *a_, **k_))(v, n.attr)
             raise Unsupported('abstract object has no attribute %s' % n.attr)
         if n.attr == '__name__' and callable(v) and hasattr(v, '__name__'):
             return v.__name__
@@ -2029,6 +2044,8 @@ def ev(n, env, funcs=None):
                 target = None
             if callable(target):
                 return target(*args, **kw_)
+            if isinstance(target, Obj) and '__call__' in target.methods:
+                return target.call('__call__', *args, **kw_)              # a callable object bound to a module-level name
         if isinstance(f, ast.Name):
             # remaining builtins with their Python meaning on the interpreter's values
             if fname == 'id' and len(args) == 1:
@@ -2258,7 +2275,7 @@ def ev(n, env, funcs=None):
                 out_.append(_format_value(ev(part.value, env, funcs), part.conversion, spec))
         return ''.join(out_)
     if isinstance(n, ast.Lambda):
-        params = [a.arg for a in n.args.args]
+        params = [a.arg for a in getattr(n.args, 'posonlyargs', [])] + [a.arg for a in n.args.args]
         defaults = [ev(d, env, funcs) for d in n.args.defaults]           # evaluated once, where the lambda is created
         kw_defaults = {a.arg: ev(d, env, funcs) for a, d in zip(n.args.kwonlyargs, n.args.kw_defaults) if d is not None}
         kwonly = [a.arg for a in n.args.kwonlyargs]
@@ -2763,10 +2780,10 @@ class _LocalClass(PyStub):
             return d['_consts'][k]
         m = d.get('_methods', {}).get(k)
         if m is not None:
-            static = any(isinstance(x, ast.Name) and x.id == 'staticmethod' for x in m.decorator_list)
+            static = any(isinstance(x, ast.Name) and _deco_name(x) == 'staticmethod' for x in m.decorator_list)
             if static:
                 return make_func(m, d['_funcs'])
-            if any(isinstance(x, ast.Name) and x.id == 'classmethod' for x in m.decorator_list):
+            if any(isinstance(x, ast.Name) and _deco_name(x) == 'classmethod' for x in m.decorator_list):
                 return lambda *a, **kw: make_func(m, d['_funcs'])(self, *a, **kw)
         raise AttributeError(k)
 
@@ -2880,7 +2897,7 @@ def _flat(env):
 def _closure(fdef, env, funcs):
     """a nested function definition: interpreted in a copy of the enclosing environment taken at call time; defaults are evaluated
     where the function is defined; names declared nonlocal are written back to the enclosing environment"""
-    params = [a.arg for a in fdef.args.args]
+    params = [a.arg for a in getattr(fdef.args, 'posonlyargs', [])] + [a.arg for a in fdef.args.args]
     defaults = [ev(d, env, funcs) for d in fdef.args.defaults]
     kw_defaults = {a.arg: ev(d, env, funcs) for a, d in zip(fdef.args.kwonlyargs, fdef.args.kw_defaults) if d is not None}
     kwonly = [a.arg for a in fdef.args.kwonlyargs]
@@ -2941,6 +2958,8 @@ def _bind(t, v, env, funcs=None):
         if isinstance(base, list):
             k = ev(t.slice, env, funcs)
             if isinstance(k, slice):
+                if isinstance(v, Obj):
+                    v = list(_iter(v, t))                  # (an iterator object of the repository: temp[1:] = _RunningSum(...))
                 if not isinstance(v, (list, tuple, range, str, set, frozenset, dict)) and not hasattr(v, '__iter__'):
                     raise TypeError('can only assign an iterable')
                 base[k] = list(v)
@@ -3019,12 +3038,12 @@ def _bind(t, v, env, funcs=None):
 def make_func(fn, funcs=None, self_obj=None):
     """a callable that interprets the repository function `fn` (ast.FunctionDef) with this module's interpreter"""
     def call(*args, **kwargs):
-        params = [a.arg for a in fn.args.args]
+        params = [a.arg for a in getattr(fn.args, 'posonlyargs', [])] + [a.arg for a in fn.args.args]
         env = {}
         if self_obj is not None and params and params[0] == 'self':
             env['self'] = self_obj
             params = params[1:]
-        _bind_params(fn, params, args, kwargs, env, funcs, getattr(fn, 'name', 'function'))
+        _bind_params(fn, params, args, kwargs, env, funcs, getattr(fn, 'name', 'function'), full=True)
         body = fn.body
         if body and isinstance(body[0], ast.Expr) and isinstance(body[0].value, ast.Constant) and isinstance(body[0].value.value, str):
             body = body[1:]
@@ -3044,7 +3063,9 @@ _PLAIN_DECORATORS = ('staticmethod', 'classmethod', 'property', 'abstractmethod'
 def _other_decorators(fn):
     out = []
     for d in getattr(fn, 'decorator_list', ()):
-        if isinstance(d, ast.Name) and d.id in _PLAIN_DECORATORS:
+        if isinstance(d, ast.Name) and _deco_name(d) in _PLAIN_DECORATORS:
+            continue
+        if isinstance(d, ast.Attribute) and isinstance(d.value, ast.Name) and d.value.id.lstrip('_') in ('functools', 'abc') and d.attr in _PLAIN_DECORATORS:
             continue
         if isinstance(d, ast.Attribute) and d.attr in ('setter', 'deleter', 'getter', 'abstractmethod', 'cached_property'):
             continue
